@@ -15,3 +15,4 @@ import Verif.Properties.C07
 #print axioms C07.importRebase_order_independent
 #print axioms C07.keysApart_of_canonical_tokens
 #print axioms C07.stripOAIGen_visit_order_independent
+#print axioms C07.stalePlans_order_independent
